@@ -174,9 +174,43 @@ def canon_row(row):
     return sorted([[str(k), cn(v)] for k, v in row.items() if k not in TIMING], key=lambda kv: kv[0])
 
 
-def episodes(case):
-    """the evaluations of a case in order: [(cfg, env)]"""
+def raw_episodes(case):
+    """the evaluations of a case in order, as the case spells them: [(cfg, env)]"""
     return [(case["cfg"], case["env"])] + [(t["cfg"], t["env"]) for t in case.get("then", [])]
+
+
+NOT_EXTRA = RESERVED + ("learn_rewards", "eval_rewards")
+
+
+def stop_rows(env):
+    """phase 6 -- env['stop'] = k: the consumer of evaluate()'s generator takes k rows, rounded up to whole loop passes (Unbatch hands
+    the rows of a batch out one at a time), then CLOSES the generator.  Returns the number of rows taken = interactions the loop
+    got through, or None when the environment is read to the end.  Only where every interaction is certain to give a row (each
+    has an additional field, so `if out: yield out` never skips) and the reserved keys are homogeneous."""
+    k, inters = env.get("stop"), env["inters"]
+    if not k or k < 1 or not inters or hetero(env):
+        return None
+    if not all(any(key not in NOT_EXTRA for key, _ in p_) for p_ in inters):
+        return None
+    bs = env.get("batch") or 1
+    return min(-(-k // bs) * bs, len(inters))
+
+
+def seen_env(env):
+    """what an abandoned evaluation got through (theorems stopped_*_is_evaluation_of_prefix): the first stop_rows interactions;
+    'stopped' keeps the number of passes and the whole environment for the model's evaluateStopped"""
+    m = stop_rows(env)
+    if m is None:
+        return {k: v for k, v in env.items() if k != "stop"} if "stop" in env else env
+    bs = env.get("batch") or 1
+    return dict({k: v for k, v in env.items() if k != "stop"}, inters=env["inters"][:m],
+                stopped={"rows": m, "passes": -(-m // bs), "full": env["inters"]})
+
+
+def episodes(case):
+    """the evaluations of a case in order: [(cfg, env)] -- an abandoned evaluation (env['stop']) is the evaluation of the interactions
+    it got through, for the monitor (B), the model (A) and the spec (C) alike"""
+    return [(c_, seen_env(e_)) for c_, e_ in raw_episodes(case)]
 
 
 def episode_learner(case, k):
@@ -310,7 +344,7 @@ def run_history(case):
     had_seed = "experiment_seed" in CobaContext.store
     old_seed = CobaContext.store.get("experiment_seed")
     try:
-        for k, (cfg, envd) in enumerate(episodes(case)):
+        for k, (cfg, envd) in enumerate(raw_episodes(case)):
             if episode_seed(case, k) is not None:
                 CobaContext.store["experiment_seed"] = episode_seed(case, k)      # what Experiment.run(seed=…) leaves for the evaluators
             else:
@@ -333,7 +367,21 @@ def run_history(case):
                 else:
                     ev = SequentialCB(record=list(cfg["record"]), learn=cfg["learn"], eval=cfg["eval"], seed=mk(L.get("pmf_seed")))
                 env = CaseEnv(envd["inters"], envd.get("batch"), envd.get("gen", False), envd.get("ctor", False))
-                rows = list(SafeEvaluator(ev).evaluate(env, given))
+                take = stop_rows(envd)
+                if take is None:
+                    rows = list(SafeEvaluator(ev).evaluate(env, given))
+                else:
+                    # an early consumer stop: take `take` rows, then close the generator (GeneratorExit at the suspended yield)
+                    it, rows = iter(SafeEvaluator(ev).evaluate(env, given)), []
+                    for r in it:
+                        rows.append(r)
+                        if len(rows) >= take:
+                            break
+                    n_close = len(lrn.calls)
+                    if hasattr(it, "close"):
+                        it.close()
+                    del it
+                    out["after_close"] = len(lrn.calls) - n_close
                 out["rows"] = [canon_row(r) for r in rows]
             except Exception as e:       # noqa: any exception is an observable here
                 out["exc"] = type(e).__name__
@@ -1453,10 +1501,40 @@ def gen_pre(rng):
     return ops
 
 
+def add_stop(case, which, k, again):
+    """phase 6 family (deterministic in its arguments): evaluation number `which` (mod the number of eligible ones) of the case is
+    ABANDONED after k rows -- every interaction of it gets an additional field 'sid' when it has none, so that each loop pass is
+    certain to yield -- and, with `again`, the same configuration/environment is then read once more to the end with the same
+    learner object (read / abandon / read again); the later evaluations of the case follow."""
+    eps = raw_episodes(case)
+    ok = [q for q, (c_, e_) in enumerate(eps) if len(e_["inters"]) >= 2 and not hetero(e_) and not is_xcfg(c_)
+          and not (q > 0 and case["then"][q - 1].get("learner")) and not case.get("reuse_evaluator")]
+    if not ok or pmf_outside(case["learner"]):
+        return case
+    q = ok[which % len(ok)]
+    cfg, env = eps[q]
+    inters = env["inters"]
+    if not all(any(key not in NOT_EXTRA for key, _ in p_) for p_ in inters):
+        inters = [list(p_) + [["sid", i_]] for i_, p_ in enumerate(inters)]
+    env2 = dict(env, inters=inters, stop=1 + (k - 1) % max(1, len(inters) - 1))
+    then = list(case.get("then", []))
+    if q == 0:
+        case = dict(case, env=env2)
+    else:
+        then[q - 1] = dict(then[q - 1], env=env2)
+    if again:
+        then.insert(q, {"cfg": cfg, "env": dict(env, inters=inters)})
+    if then:
+        case = dict(case, then=then)
+    return case
+
+
 def gen_case(rng, tier="quick", boundary=False):
     """`gen_case0` + (12%) earlier operations in the same process (an aborted SequentialCB evaluation whose learner wrote
     learning_info, or a RejectionCB evaluation) before the first and/or a later evaluation of the case"""
     case = gen_case0(rng, tier, boundary)
+    if rng.chance(0.3 if boundary else 0.16):
+        case = add_stop(case, rng.below(3), rng.randint(1, 4), rng.chance(0.5))
     if rng.chance(0.2 if boundary else 0.12):
         then = case.get("then") or []
         if then and rng.chance(0.4):
@@ -1951,7 +2029,18 @@ class C06(Property):
         return [note, note2]
 
     def corpus(self):
-        return corpus_cases()
+        cs = corpus_cases()
+        # phase 6: read / abandon / read again -- the first 60 corpus cases that can be abandoned, stopped after 1 and after 2 rows,
+        # with and without reading the same environment again afterwards
+        extra = []
+        for c_ in cs:
+            if len(extra) >= 120:
+                break
+            for k_, again in ((1, True), (2, False)):
+                c2 = add_stop(c_, 0, k_, again)
+                if c2 is not c_:
+                    extra.append(c2)
+        return cs + extra
 
     def generate(self, rng, tier):
         return gen_case(rng, tier)
@@ -1995,6 +2084,15 @@ class C06(Property):
             else:
                 efails, etags = monitor(ecase, impl)
             efails += monitor_foreign(ecase, impl)
+            stp = env.get("stopped")
+            if stp:
+                etags += ["stop:abandoned", "stop:passes:%d" % min(stp["passes"], 3), "stop:%s" % ("batched" if env.get("batch") else "unbatched"),
+                          "stop:all" if stp["rows"] >= len(stp["full"]) else "stop:early"]
+                if impl.get("after_close"):
+                    efails.append(F("B", "closing the generator made the evaluator call the learner %d more time(s): %s -- interactions the consumer "
+                                    "never asked for were fed to the learner" % (impl["after_close"], [strip_call(c) for c in impl["calls"][-impl["after_close"]:]][:2]),
+                                    "stop:calls-after-close"))
+                    impl = dict(impl, calls=impl["calls"][:-impl["after_close"]])
             for op, note in zip(episode_pre(case, k), impl.get("pre", [])):
                 etags.append("pre:%s:%s:%s" % (op["kind"], op.get("where"), note))
             etags += ["learn:%s" % cfg["learn"], "eval:%s" % cfg["eval"], "batch:%s" % (env.get("batch") or 0), "n:%d" % min(len(env["inters"]), 5),
@@ -2034,11 +2132,21 @@ class C06(Property):
                     efails += hf
             elif driver is not None:
                 req0 = model_request(ecase, impl["s0"])
+                if stp:
+                    req0["stop"] = {"j": stp["passes"], "full": model_request(dict(ecase, env=dict(env, inters=stp["full"])), impl["s0"])["env"]}
                 raw_on = not L.get("prewrap")
                 if raw_on:
                     req0["learner"]["raw"] = {"aware": L.get("batch_mode", "aware") == "aware", "width": raw_width(impl)}
                 ans = driver.ask(req0)
                 model = ans["model"]
+                if stp:
+                    # theorems stopped_{unbatched,batched}_is_evaluation_of_prefix / stopped_evaluation_is_prefix, at run time
+                    sm = ans["stop"]
+                    if sm["stopped"] != model:
+                        efails.append(F("C", "evaluateStopped j=%d on the whole environment %s differs from evaluate on the first %d interactions %s"
+                                        % (stp["passes"], json.dumps(sm["stopped"])[:150], stp["rows"], json.dumps(model)[:150]), "C:stopped-prefix"))
+                    if sm["fullModel"].get("kind") == "ok" and sm["resumed"] != sm["fullModel"]:
+                        efails.append(F("C", "resumeStopped after %d passes does not give the full evaluation" % stp["passes"], "C:stopped-resume"))
                 if raw_on and (impl["exc"] is None and model.get("kind") == "ok"
                                or impl["exc"] == "CobaException" and model.get("kind") == "error" and model.get("err") == "missing"):
                     rf, rt = compare_raw(ecase, impl, ans)
@@ -2068,6 +2176,9 @@ class C06(Property):
                     etags.append("hyp")
             if L.get("info"):
                 etags.append("learning_info")
+            if stp:
+                for f in efails:
+                    f["what"] = "the consumer took %d row(s) of %d from evaluate()'s generator and closed it: %s" % (stp["rows"], len(stp["full"]), f["what"])
             if k > 0:
                 for f in efails:
                     f["what"] = "evaluation #%d %s, after %s: %s" % (
@@ -2091,7 +2202,23 @@ class C06(Property):
             req = model_request(episode_case(case, 0), obs[0]["s0"])
             req["history"] = [{"cfg": model_request(episode_case(case, k))["cfg"], "batch": episodes(case)[k][1].get("batch"),
                                "env": model_request(episode_case(case, k))["env"]} for k in range(n_eps)]
-            hist = driver.ask(req)["history"]
+            any_stop = False
+            for k in range(n_eps):
+                stp_k = episodes(case)[k][1].get("stopped")
+                if stp_k:
+                    any_stop = True
+                    ec = episode_case(case, k)
+                    req["history"][k]["stop"] = stp_k["passes"]
+                    req["history"][k]["full"] = model_request(dict(ec, env=dict(ec["env"], inters=stp_k["full"])))["env"]
+            hans = driver.ask(req)
+            hist = hans["history"]
+            if any_stop:
+                # theorem abandoned_then_continued: the history with abandoned evaluations (runHistoryS on the whole environments) is
+                # the history of the evaluations of what they got through
+                tags.append("history-with-abandoned-evaluation")
+                if hans["historyS"] != hist:
+                    fails.append(F("C", "runHistoryS %s differs from runHistory on the prefixes %s" % (json.dumps(hans["historyS"])[:200], json.dumps(hist)[:200]),
+                                   "C:history-abandoned"))
             for k in range(n_eps):
                 if hist[k] != models[k]:
                     fails.append(F("C", "runHistory: outcome #%d %s differs from the evaluation replayed from its start state %s"
@@ -2127,6 +2254,8 @@ class C06(Property):
                         yield dict(case, then=then[:k] + [dict(t, env=dict(t["env"], inters=ti[:q] + ti[q + 1:]))] + then[k + 1:])
                 for r in t["cfg"]["record"]:
                     yield dict(case, then=then[:k] + [dict(t, cfg=dict(t["cfg"], record=[x for x in t["cfg"]["record"] if x != r]))] + then[k + 1:])
+        if "stop" in case["env"]:
+            yield dict(case, env={k_: v for k_, v in case["env"].items() if k_ != "stop"})
         if case.get("pre") and len(case["pre"]) > 1:
             for q in range(len(case["pre"])):
                 yield dict(case, pre=case["pre"][:q] + case["pre"][q + 1:])
